@@ -121,3 +121,13 @@ TWINS = [
          "        self._relevant_unit = cnode.value\n        self._store_in_state(in_states)"),
     Edit("drop an assert", EH + "two_leaf_unit_event_handler.py", "        assert len(self._leaf_cnodes) == 2\n", ""),
 ]
+
+# seventh round (C08_I): a fast path that recycles only the committing handler when the tagger trashes itself alone
+MUTANTS.append(Edit("trash routine: self-trashing tagger stops only the committing handler", "jellyfysh/activator/tag_activator.py",
+                    "        trashable_events = []\n        for tagger in self._trash_taggers[",
+                    "        own_tagger = self._event_handler_tagger_dictionary[preceding_event_handler]\n"
+                    "        if len(self._trash_taggers[own_tagger]) == 1 and self._trash_taggers[own_tagger][0] is own_tagger:\n"
+                    "            self._running_event_handlers[own_tagger].remove(preceding_event_handler)\n"
+                    "            self._not_running_event_handlers[own_tagger].append(preceding_event_handler)\n"
+                    "            return [preceding_event_handler]\n"
+                    "        trashable_events = []\n        for tagger in self._trash_taggers[", "R9.3"))
